@@ -106,9 +106,30 @@ def c06_witness(res):
         out2 = sh([SVH, "fmt"], inp="w2 - %s\n" % hexs(first), timeout=120).stdout.split()
         if len(out2) > 2 and out2[1] == "ok" and bytes.fromhex(out2[2][1:]) != first:
             for e in known_findings("C06"):
-                if e.get("id") == "F-C06-kept-parens-around-guarded-minus": res.known.append(e["what"]); return True
+                if e.get("id") == "F-C06-kept-parens-around-guarded-minus":
+                    if not any(k.startswith(e["what"]) for k in res.known): res.known.append(e["what"])
+                    return True
             return False
     return True
+
+# Known classes that the generators do not write on purpose (they would fill every seeded region with instances): each is probed
+# with one witness through the property's own judge; while it reproduces and is listed it prints its KNOWN-FINDING line, when it
+# reproduces and is not listed it is a violation, when it no longer reproduces nothing is printed.
+CLASS_WITNESSES = {
+    "C06": [("F-C06-blank-line-inside-statement", "x = a\n\n + b\nf(a\n\n)\n", ["--idem"])],
+    "C10": [("F-C10-blank-line-inside-statement", "x = a\n\n + b\n", ["--trace"])],
+    "C03": [("F-C03-name-key-trailing-comment", "local t = { y --[[c]] = 2 }\n", ["--trace"])],
+}
+def class_witnesses(res, prop, judge):
+    bad = []
+    for fid, src, flags in CLASS_WITNESSES.get(prop, []):
+        h = [SVH, "run", "--one", "Lua51", "syntax=Lua51", "-", "#" + src.encode().hex()] + flags
+        lines, errs = run_pipeline_sharded(lambda i, n: (h, [driver("drv_fmt"), judge]), shards=1)
+        if errs or any(l.startswith("BAD") for l in lines):
+            kf = [e for e in known_findings(prop) if e.get("id") == fid]
+            if kf: res.known.append(kf[0]["what"])
+            else: bad.append(dict(kind="input", check="class-witness:" + fid, family="witness", syntax="Lua51", config="syntax=Lua51", range="-", source_hex="#" + src.encode().hex(), flags=flags, source=src))
+    return bad
 
 def run_prop(res, prop, extra_obligations=1):
     sp = SPEC[prop]
@@ -144,6 +165,8 @@ def run_prop(res, prop, extra_obligations=1):
         else:
             payloads.append(dict(kind="input", check="L0:second-pass-differs-as-the-model-predicts", case=res.l0_nonidem[0], family="l0", seed=res.seed, n=(1500 if res.tier == "quick" else 40000),
                                  expected="a second pass changes nothing (or the finding is listed)")); ok = False
+    more = class_witnesses(res, prop, sp["judge"])
+    payloads = more + payloads; ok = ok and not more
     if prop == "C06" and not c06_witness(res):
         payloads.append(dict(kind="input", check="second-pass-differs", family="witness", source="local x = (- -f())\n", expected="a second pass changes nothing (or the finding is listed)")); ok = False
     if prop == "C01":
